@@ -25,7 +25,7 @@ theorem C05_logMatching (c0 : Cfg) (hne : c0.incoming ≠ [] ∨ c0.outgoing ≠
     (hr : ReachC c0 s) (a b k : Nat) (x y : LEntry)
     (hx : (s.nodes a).log[k]? = some x) (hy : (s.nodes b).log[k]? = some y) (ht : x.term = y.term) :
     (s.nodes a).log.take (k + 1) = (s.nodes b).log.take (k + 1) :=
-  logMatching_of_invL (invL_reach c0 hne s hr) _ _ (Or.inl ⟨a, rfl⟩) (Or.inl ⟨b, rfl⟩) k x y hx hy ht
+  logMatching_of_invL (invL_reach c0 hne s hr) _ _ (listsOf_log s a) (listsOf_log s b) k x y hx hy ht
 
 /-- the same between any two lists of entries that exist anywhere: volatile logs, durable logs,
 pending images, acknowledged prefixes, snapshots, ghost leader logs -/
@@ -77,11 +77,18 @@ theorem C05_leader_append_only (s s' : PSys) (e : Event) (h : applyEvent s e = .
     · split at h
       · split at h
         · rename_i m _ _
-          cases m <;> simp only [addReleased] at h <;> cases h <;>
-            (by_cases hj : j = i <;> simp [upd, hj])
+          cases m <;> simp only [addReleased] at h <;> cases h <;> (exact ⟨[], by simp⟩)
         · cases h
       · cases h
-    · cases h
+    · split at h
+      · split at h
+        · split at h
+          · rename_i m _ _
+            cases m <;> simp only [addReleased] at h <;> cases h <;>
+              (by_cases hj : j = i <;> simp [upd, hj])
+          · cases h
+        · cases h
+      · cases h
   | persist i k =>
     simp only [applyEvent, ok] at h
     split at h
@@ -138,7 +145,14 @@ theorem C05_leader_append_only (s s' : PSys) (e : Event) (h : applyEvent s e = .
       · subst hj; rw [hg.2.2.2.2.2.2.2.2.2.2.1] at h1; cases h1
       · simp [upd, hj]
     · cases h
-  | bump i t | campaign i | grant i c | rdy i | crash i | win i cfg q | stepDown i | ackCommitted i
+  | grant i c =>
+    simp only [applyEvent, ok] at h
+    split at h
+    · split at h
+      · cases h; by_cases hj : j = i <;> simp [upd, hj]
+      · cases h
+    · cases h
+  | bump i t | campaign i | rdy i | crash i | win i cfg q | stepDown i | ackCommitted i | ackSelf i idx
   | commitLeader i c cfg q | commitApp i c m | commitHB i c m | commitClaim i m =>
     simp only [applyEvent, ok] at h
     split at h
@@ -170,11 +184,18 @@ theorem C05_commit_prefix_immutable (s s' : PSys) (e : Event) (h : applyEvent s 
     · split at h
       · split at h
         · rename_i m _ _
-          cases m <;> simp only [addReleased] at h <;> cases h <;>
-            (by_cases hj : j = i <;> simp [upd, hj])
+          cases m <;> simp only [addReleased] at h <;> cases h <;> (rfl)
         · cases h
       · cases h
-    · cases h
+    · split at h
+      · split at h
+        · split at h
+          · rename_i m _ _
+            cases m <;> simp only [addReleased] at h <;> cases h <;>
+              (by_cases hj : j = i <;> simp [upd, hj])
+          · cases h
+        · cases h
+      · cases h
   | persist i k =>
     simp only [applyEvent, ok] at h
     split at h
@@ -216,7 +237,14 @@ theorem C05_commit_prefix_immutable (s s' : PSys) (e : Event) (h : applyEvent s 
           exact e1
       · simp [upd, hj]
     · cases h
-  | bump i t | campaign i | grant i c | rdy i | crash i | win i cfg q | stepDown i | ackCommitted i
+  | grant i c =>
+    simp only [applyEvent, ok] at h
+    split at h
+    · split at h
+      · cases h; by_cases hj : j = i <;> simp [upd, hj]
+      · cases h
+    · cases h
+  | bump i t | campaign i | rdy i | crash i | win i cfg q | stepDown i | ackCommitted i | ackSelf i idx
   | commitLeader i c cfg q | commitApp i c m | commitHB i c m | commitClaim i m =>
     simp only [applyEvent, ok] at h
     split at h
@@ -236,8 +264,8 @@ def e (t d : Nat) : LEntry := ⟨t, 0, d⟩
 /-- node 1 leads term 1 and replicates entry a to node 2 only; node 3 then wins term 2 with the
 votes of 3 and ... (it needs node 2, whose log is longer: refused) -/
 def hist : List Event :=
-  [.bump 1 1, .campaign 1, .rdy 1, .persist 1 1, .release 1 (.grant 1 1 1), .release 1 (.voteReq 1 1 0 0),
-   .bump 2 1, .grant 2 1, .rdy 2, .persist 2 1, .release 2 (.grant 1 2 1), .win 1 c3 [1, 2],
+  [.bump 1 1, .campaign 1, .rdy 1, .persist 1 1, .release 1 (.grant 1 1 1 {}), .release 1 (.voteReq 1 1 0 0),
+   .bump 2 1, .grant 2 1, .rdy 2, .persist 2 1, .release 2 (.grant 1 2 1 {}), .win 1 c3 [1, 2],
    .leaderAppend 1 (e 1 7), .sendApp 1 ⟨1, 1, 0, 0, [e 1 7], 0⟩, .recvApp 2 ⟨1, 1, 0, 0, [e 1 7], 0⟩,
    .leaderAppend 1 (e 1 8)]
 
